@@ -6,6 +6,7 @@ import AwsVerif.Proofs.C20.WrapStep
 import AwsVerif.Proofs.C20.Demo
 import AwsVerif.Proofs.C20.Mutex
 import AwsVerif.Proofs.C20.NoLostStep
+import AwsVerif.Proofs.C20.Progress
 /-!
 # C20 — threads run once, run their exit callbacks, managed threads all get joined
 
@@ -156,22 +157,33 @@ theorem c20_join_all (P : Prog) (wf : WF P) (s : State) (h : Reachable P s) (t :
     (hr : Ev.joinAllRet t true snap ∈ s.log) : ∀ k, k ∈ snap → (s.th k).status = .joined :=
   (joinInv_reachable P wf.n_pos wf.main s h).2.logged t snap hr
 
-/-- **No deadlock — NOT PROVED (statement kept at full strength).**  In every reachable state of a
-`WFProgress` program, either all threads have finished or, possibly after virtual time has advanced, some
-thread has an enabled step.  (Thread functions terminate by construction: a body is a finite action list.)
-What is proved instead: `c20_no_leak`, `c20_managed_owner` (no thread waits on a join that another thread has
-already performed, no self-join) and the exhaustive-schedule runs of props/c20.py, which never reach a state
-without an enabled thread. -/
+/-- the deadlock-freedom statement: in every reachable state of a `WFProgress` program, either all threads have
+finished or, possibly after virtual time has advanced (sleeps, timed waits), some thread has an enabled step -/
 def c20_no_deadlock_statement : Prop :=
   ∀ (P : Prog), WFProgress P → ∀ s, Reachable P s →
     AllFinished P s ∨ ∃ d t, (step P { s with now := s.now + d } t).isSome = true
 
-/-- **No deadlock — proved part.**  (1) Mutual exclusion: a thread whose next instruction touches the count, the
+/-- **No deadlock** (fully proved).  No launch / finish / join / join-all interleaving of the model — any
+schedule, spurious wake-ups, arbitrary time advance, injected `pthread_create` failures and retries — reaches a
+state in which unfinished threads exist but none can ever step.  `WFProgress`: join-all is called by the main
+thread only, every slot is launched from one place and a manual thread is joined at most once and only by the
+thread that launches it (two user threads that `pthread_join` each other deadlock in plain pthreads too: see the
+`example` below, and corpus run `slot 1 U Y J2; slot 2 U Y J1; main L1 L2`, which detsched reports as deadlock on
+the real library).  Proof: the lock holder can always step (`c20_no_deadlock_partial`); with the lock free, a
+blocked manual `join` waits for a thread of larger creation ordinal (launch tree: `TreeInv`), a blocked lazy
+join waits for a managed thread that handed itself over earlier (`HoInv`), so the chains end in a thread that can
+step; if only the main thread is left, it cannot be blocked in the join-all wait because an un-notified waiter
+implies count ≥ 2 (`c20_no_lost_wakeup`) while the accounting (`c20_managed_count`, `c20_managed_owner`,
+pending ≤ 1) bounds the count by 1.  Thread functions terminate by construction (a body is a finite action
+list); the busy `join_all_managed` loop means that *termination* additionally needs a fair scheduler. -/
+theorem c20_no_deadlock : c20_no_deadlock_statement :=
+  fun P wf s hr => no_deadlock_core P wf s hr
+
+/-- **Lock progress** (used by `c20_no_deadlock`).  (1) Mutual exclusion: a thread whose next instruction touches the count, the
 pending list or the timeout, notifies or starts a condition wait owns `s_managed_thread_lock`; a thread
 waiting on the condition variable does not own it.  (2) The lock is never an obstacle: whenever the lock is
 held, its holder has an enabled step (nothing blocks inside a critical section, the wait releases the lock), so
-any thread blocked on `lock` will be able to proceed.  Missing for the full statement: progress of the `join`
-chains (needs the hand-over order); the condition wait is covered by `c20_no_lost_wakeup`. -/
+any thread blocked on `lock` will be able to proceed.  -/
 theorem c20_no_deadlock_partial (P : Prog) (wf : WF P) (s : State) (h : Reachable P s) :
     (∀ t i r, (s.th t).code = i :: r → i.inCS = true → s.lockOwner = some t ∧ (s.th t).waiting = false) ∧
     (∀ t, (s.th t).waiting = true → s.lockOwner ≠ some t) ∧
@@ -261,6 +273,69 @@ example :
     let s := drive demo 200 (init demo)
     s.log.contains (Ev.joinAllRet 0 true [2, 1]) = true ∧ (s.th 1).status = .joined ∧ (s.th 2).status = .joined ∧
     cbsOf 1 s.log = [7, 8] ∧ s.count = 0 ∧ s.wLive = 0 ∧ s.cbLive = 0 ∧ s.misuse = 0 := by
+  decide
+
+/-! ### `c20_no_deadlock`: the hypothesis is satisfiable, and `joinByLauncher` cannot be dropped -/
+
+/-- main launches a manual thread (which launches a managed one) and a managed thread, joins the manual one and
+calls join-all -/
+def demoP : Prog :=
+  { n := 4
+    managed := fun k => k == 2 || k == 3
+    body := fun k =>
+      if k = 0 then [.launch 1 false 0 false, .launch 2 true 1 true, .join 1, .joinAll]
+      else if k = 1 then [.atexit 5, .launch 3 false 0 false] else [] }
+
+example : WFProgress demoP := by
+  refine { n_pos := by decide, main := by decide, joinAllMain := ?_, joinOnce := ?_, launchOnce := ?_, joinByLauncher := ?_ }
+  · intro k hk
+    by_cases h1 : k = 1
+    · subst h1; decide
+    · simp [demoP, hk, h1]
+  · intro k
+    by_cases h1 : k = 1
+    · subst h1; decide
+    · have : ¬ 1 = k := fun e => h1 e.symm
+      simp [demoP, List.range, List.range.loop, this]
+  · intro k
+    by_cases h1 : k = 1
+    · subst h1; decide
+    · by_cases h2 : k = 2
+      · subst h2; decide
+      · by_cases h3 : k = 3
+        · subst h3; decide
+        · have a : ¬ 1 = k := fun e => h1 e.symm
+          have b : ¬ 2 = k := fun e => h2 e.symm
+          have c : ¬ 3 = k := fun e => h3 e.symm
+          simp [demoP, List.range, List.range.loop, a, b, c]
+  · intro j k hj hm
+    have hj' : j = 0 ∨ j = 1 ∨ j = 2 ∨ j = 3 := by simp [demoP] at hj; omega
+    rcases hj' with rfl | rfl | rfl | rfl
+    · simp [demoP] at hm; subst hm; exact ⟨false, 0, false, by simp [demoP]⟩
+    · simp [demoP] at hm
+    · simp [demoP] at hm
+    · simp [demoP] at hm
+
+/-- the theorem applied: this execution of `demoP` ends with every thread finished (all joined) -/
+example :
+    let s := drive demoP 400 (init demoP)
+    (s.th 1).status = .joined ∧ (s.th 2).status = .joined ∧ (s.th 3).status = .joined ∧ (s.th 0).status = .exited ∧
+      s.count = 0 ∧ s.wLive = 0 := by
+  decide
+
+/-- two manual threads that join each other: each joined once, each launched once, join-all only in main — but
+not `joinByLauncher`.  After main has launched both and each has started, neither can ever step: a genuine
+(user-level) `pthread_join` cycle, which is why the hypothesis is part of `WFProgress`. -/
+def cyc : Prog :=
+  { n := 3
+    managed := fun _ => false
+    body := fun k => if k = 0 then [.launch 1 false 0 false, .launch 2 false 0 false]
+      else if k = 1 then [.yield, .join 2] else if k = 2 then [.yield, .join 1] else [] }
+
+example :
+    let s := runList cyc [0, 0, 0, 0, 0, 0, 0, 0, 0, 0, 0, 0, 0, 1, 2, 1, 2, 1, 2, 1, 2, 1, 2] (init cyc)
+    (s.th 1).status = .running ∧ (s.th 2).status = .running ∧
+      (step cyc s 0).isNone = true ∧ (step cyc s 1).isNone = true ∧ (step cyc s 2).isNone = true := by
   decide
 
 end AwsVerif.Props.C20
